@@ -30,6 +30,7 @@ var replayFamilies = map[string]replayFamily{
 	"exec":   {"twig", "exec_test.go", "TestStickvcReplayExec"},
 	"leak":   {".", "leak_test.go", "TestStickvcReplayLeak"},
 	"pos":    {"parse", "pos_test.go", "TestStickvcReplayPos"},
+	"render": {"twig", "render_test.go", "TestStickvcReplayRender"},
 }
 
 type ReplayFile struct {
@@ -106,6 +107,9 @@ func writeReplay(e *Engine, pc *PropConfig, o *Obligation, header *Universe, dir
 		rf.Candidates = cands
 		cb, _ := json.Marshal(cands)
 		rf.Env = map[string]string{"STICKVC_CANDIDATES": string(cb), "STICKVC_SKIP": knownSkip(pc.ID)}
+		if pc.Replay == "render" {
+			rf.Env["STICKVC_PROP"] = pc.ID
+		}
 		if pc.Replay == "exec" || pc.Replay == "leak" || pc.Replay == "pos" {
 			wb, _ := json.Marshal(pc.Witnesses)
 			rf.Env["STICKVC_INPUTS"] = string(wb)
@@ -131,6 +135,22 @@ func writeReplay(e *Engine, pc *PropConfig, o *Obligation, header *Universe, dir
 			// the test binary died: a panic in the tokeniser goroutine; the last input written identifies it
 			if lb, err := os.ReadFile(rf.Env["STICKVC_LAST"]); err == nil && strings.Contains(out, "panic:") {
 				out = fmt.Sprintf("REPLAY-FAIL class=parse/panic input=%q (process crashed: unrecoverable panic in the tokeniser goroutine)\n", string(lb)) + out
+			}
+		}
+		if failed && !strings.Contains(out, "REPLAY-FAIL") && strings.Contains(out, "fatal error:") {
+			// the test binary died (stack overflow, unrecoverable panic): the last case announced identifies the input
+			last := ""
+			for _, ln := range strings.Split(out, "\n") {
+				if strings.HasPrefix(ln, "REPLAY-CASE ") {
+					last = strings.TrimPrefix(ln, "REPLAY-CASE ")
+				}
+			}
+			if last != "" {
+				why := "process crashed"
+				if i := strings.Index(out, "fatal error:"); i >= 0 {
+					why = strings.SplitN(out[i:], "\n", 2)[0]
+				}
+				out = "REPLAY-FAIL " + last + " (" + why + ")\n" + out
 			}
 		}
 		rf.TestOutput = truncate(firstFailLines(out, 12), 3000)
